@@ -281,7 +281,10 @@ func (in *Interp) equals(t types.Type, x, y Value) *Term {
 	case Struct:
 		c := y.(Struct)
 		r := TrueT
-		st, _ := t.Underlying().(*types.Struct)
+		var st *types.Struct
+		if t != nil {
+			st, _ = t.Underlying().(*types.Struct)
+		}
 		for i := range a {
 			if st != nil && st.Field(i).Name() == "_" {
 				continue
@@ -297,8 +300,10 @@ func (in *Interp) equals(t types.Type, x, y Value) *Term {
 		c := y.(Array)
 		r := TrueT
 		var et types.Type
-		if at, ok := t.Underlying().(*types.Array); ok {
-			et = at.Elem()
+		if t != nil {
+			if at, ok := t.Underlying().(*types.Array); ok {
+				et = at.Elem()
+			}
 		}
 		for i := range a {
 			r = in.tb.And(r, in.equals(et, a[i], c[i]))
@@ -894,8 +899,9 @@ func (in *Interp) next(x *ssa.Next, itv Value) Value {
 			it.Pos++
 			return Tuple{TrueT, ConstBV(64, uint64(pos)), in.tb.Zext(b0, 32)}
 		}
-		// non-ASCII symbolic byte: treat as RuneError of width 1 only if it cannot start a valid sequence; unsupported otherwise
-		in.unsupported("range over string with symbolic non-ASCII byte")
+		r, sz := in.decodeRuneSym(it.S, pos)
+		it.Pos += sz
+		return Tuple{TrueT, ConstBV(64, uint64(pos)), r}
 	case *MapIter:
 		for it.Pos < len(it.Keys) {
 			k := it.Keys[it.Pos]
@@ -1346,3 +1352,55 @@ func zeroLike(v Value) Value {
 func zeroLikeCopy(z Value) Value { return copyVal(z) }
 
 var _ = math.MaxInt64
+
+// decodeRuneSym decodes one UTF-8 sequence starting at a non-ASCII (possibly
+// symbolic) byte, forking on the validity conditions exactly as
+// unicode/utf8.DecodeRuneInString does. Returns the rune (BV32) and width.
+func (in *Interp) decodeRuneSym(s *Str, pos int) (*Term, int) {
+	b := in.tb
+	runeErr := ConstBV(32, 0xFFFD)
+	inRange := func(x *Term, lo, hi uint64) bool {
+		return in.branch(b.And(b.Ule(ConstBV(8, lo), x), b.Ule(x, ConstBV(8, hi))))
+	}
+	is := func(x *Term, v uint64) bool { return in.branch(b.Eq(x, ConstBV(8, v))) }
+	n := s.Len() - pos
+	b0 := s.At(pos)
+	z32 := func(x *Term, m uint64) *Term { return b.Zext(b.BAnd(x, ConstBV(8, m)), 32) }
+	sh := func(x *Term, k uint64) *Term { return b.Shl(x, ConstBV(32, k)) }
+	switch {
+	case inRange(b0, 0xC2, 0xDF):
+		if n < 2 || !inRange(s.At(pos+1), 0x80, 0xBF) {
+			return runeErr, 1
+		}
+		return b.BOr(sh(z32(b0, 0x1F), 6), z32(s.At(pos+1), 0x3F)), 2
+	case inRange(b0, 0xE0, 0xEF):
+		if n < 3 {
+			return runeErr, 1
+		}
+		lo, hi := uint64(0x80), uint64(0xBF)
+		if is(b0, 0xE0) {
+			lo = 0xA0
+		} else if is(b0, 0xED) {
+			hi = 0x9F
+		}
+		if !inRange(s.At(pos+1), lo, hi) || !inRange(s.At(pos+2), 0x80, 0xBF) {
+			return runeErr, 1
+		}
+		return b.BOr(b.BOr(sh(z32(b0, 0x0F), 12), sh(z32(s.At(pos+1), 0x3F), 6)), z32(s.At(pos+2), 0x3F)), 3
+	case inRange(b0, 0xF0, 0xF4):
+		if n < 4 {
+			return runeErr, 1
+		}
+		lo, hi := uint64(0x80), uint64(0xBF)
+		if is(b0, 0xF0) {
+			lo = 0x90
+		} else if is(b0, 0xF4) {
+			hi = 0x8F
+		}
+		if !inRange(s.At(pos+1), lo, hi) || !inRange(s.At(pos+2), 0x80, 0xBF) || !inRange(s.At(pos+3), 0x80, 0xBF) {
+			return runeErr, 1
+		}
+		return b.BOr(b.BOr(b.BOr(sh(z32(b0, 0x07), 18), sh(z32(s.At(pos+1), 0x3F), 12)), sh(z32(s.At(pos+2), 0x3F), 6)), z32(s.At(pos+3), 0x3F)), 4
+	}
+	return runeErr, 1
+}
